@@ -768,6 +768,7 @@ class Check(PropertyCheck):
 
     def setup(self, tier):
         self.known_selftest()
+        self.parallel = tier == "thorough"      # under load the fork pool is slower than the serial loop for the quick tier
 
     def known_selftest(self):
         """positive witness and near misses for every finding (notes/known_audit.txt): raises → the run ends as INFRA"""
